@@ -265,7 +265,7 @@ func c11Arrange(asc []time.Duration, order int) []time.Duration {
 
 func TestC11(t *testing.T) {
 	R := ev.New("C11")
-	R.Rule = "(a) every sequence of length 1..6 over {1,2,3,1e3,1e6,1e12}ns, with and without a Close after every Add; (b) 8 structured families (constant, ramp, bimodal with a 1e9 gap at the 50/90/95/99% split, geometric plateaus, saw-tooth) for every n in 1..N (quick: additionally n=500,600..3000) and two-valued inputs with every split k/n for n<=60, each in sorted, reversed and interleaved arrival order; a case is distinct+non-trivial when its (arrival sequence, close mode) differs and it holds at least two different latencies (otherwise no percentile can be mis-ordered or mis-ranked)"
+	R.Rule = "(c) constant inputs for every value 1..V ns and around every power of 2 and 10; (a) every sequence of length 1..6 over {1,2,3,1e3,1e6,1e12}ns, with and without a Close after every Add; (b) 8 structured families (constant, ramp, bimodal with a 1e9 gap at the 50/90/95/99% split, geometric plateaus, saw-tooth) for every n in 1..N (quick: additionally n=500,600..3000) and two-valued inputs with every split k/n for n<=60, each in sorted, reversed and interleaved arrival order; a case is distinct+non-trivial when its (arrival sequence, close mode) differs and it holds at least two different latencies (otherwise no percentile can be mis-ordered or mis-ranked)"
 	R.Assume("random (uniform / log-normal) draws are outside a bounded exhaustive check; every n up to N is run for each structured family instead")
 	R.Assume("rank of an observed latency = its position in the sorted input counted from 0 or from 1, whichever is favourable, and with ties the favourable position (weaker reading: the statement fixes neither; the mid-point interpolation the estimator performs exactly for small n is within the bound for origin 0 and up to 0.5 rank outside for origin 1)")
 	alpha := []time.Duration{1, 2, 3, 1e3, 1e6, 1e12}
@@ -314,6 +314,45 @@ func TestC11(t *testing.T) {
 	R.Part("a", "sequences", len(seqs))
 	R.Part("a", "multisets", len(multisets))
 	for _, fs := range foundA {
+		for _, f := range fs {
+			R.Violation(f.key, f.detail)
+		}
+	}
+
+	// ---- (c) constant inputs over a contiguous value range -----------------------
+	// "when all latencies are equal every percentile equals that value": every value v in 1..V ns
+	// and the neighbours of every power of 2 and of 10, as 1 and as 3 equal samples.
+	V := ev.Pick(20000, 300000)
+	var cvals []time.Duration
+	for v := 1; v <= V; v++ {
+		cvals = append(cvals, time.Duration(v))
+	}
+	for k := 15; k < 62; k++ {
+		cvals = append(cvals, time.Duration(1)<<k-1, time.Duration(1)<<k, time.Duration(1)<<k+1)
+	}
+	for p10 := time.Duration(100000); p10 < 1e18; p10 *= 10 {
+		cvals = append(cvals, p10-1, p10, p10+1, p10+p10/1000+1)
+	}
+	R.Set("constant_sweep_values", len(cvals))
+	foundC := make([][]c11Finding, len(cvals))
+	ev.Parallel(len(cvals), 16, func(i int) {
+		for _, n := range []int{1, 3} {
+			lats := make([]time.Duration, n)
+			for j := range lats {
+				lats[j] = cvals[i]
+			}
+			m := c11Run(lats, false)
+			R.Eval(1)
+			R.Trans(n + 1)
+			fs := c11Check(m, lats, "constant-sweep", n == 1)
+			for k := range fs {
+				fs[k].detail = map[string]any{"what": fs[k].detail, "value_ns": int64(cvals[i]), "samples": n}
+			}
+			foundC[i] = append(foundC[i], fs...)
+		}
+	})
+	R.Part("c", "constant values", len(cvals))
+	for _, fs := range foundC {
 		for _, f := range fs {
 			R.Violation(f.key, f.detail)
 		}
